@@ -11,12 +11,17 @@ import (
 )
 
 type zzTransport struct {
-	shutdowns int
-	closes    int
+	shutdowns   int
+	closes      int
+	hadDeadline bool
 }
 
 func (t *zzTransport) Close() error                       { t.closes++; return nil }
-func (t *zzTransport) Shutdown(ctx context.Context) error { t.shutdowns++; return ctx.Err() }
+func (t *zzTransport) Shutdown(ctx context.Context) error {
+	t.shutdowns++
+	_, t.hadDeadline = ctx.Deadline()
+	return ctx.Err()
+}
 func (t *zzTransport) ListenAndServe(onData network.OnData) error {
 	return nil
 }
@@ -47,6 +52,7 @@ func ZZ_C18_H2() {
 	zz.Assert("running-shutdown-succeeds", err == nil)
 	zz.Assert("status-becomes-shutdown", e.status == statusShutdown)
 	zz.Assert("transport-shut-down-once", tr.shutdowns == 1)
+	zz.Assert("transport-wait-is-bounded-by-the-exit-wait-deadline", tr.hadDeadline)
 	zz.Assert("hooks-ran-once", hookRan == 1)
 	err2 := e.Shutdown(context.Background())
 	zz.Assert("second-shutdown-reports-error", err2 == errStatusNotRunning)
